@@ -35,7 +35,7 @@ func c13Scenarios(tier string) []*Scenario {
 			c := r.AllocateCounter("n", map[string]string{"a": "b"})
 			c.ReportCount(1)
 			g := r.AllocateGauge("m", nil)
-			h := r.AllocateHistogram("h", map[string]string{"a": "b"}, tally.ValueBuckets{1, 2})
+			h := r.AllocateHistogram("h", map[string]string{"a": "b"}, tally.ValueBuckets{2, 1})
 			p1 := rt.GoNamed("prod1", func() {
 				c.ReportCount(2)
 				h.ValueBucket(0, 2).ReportSamples(5)
@@ -161,7 +161,7 @@ func c14Scenarios(tier string) []*Scenario {
 			t := r.AllocateTimer("t", map[string]string{"a": "b"})
 			var hb tally.CachedHistogramBucket
 			if v.hist {
-				hb = r.AllocateHistogram("h", nil, tally.ValueBuckets{1}).ValueBucket(0, 1)
+				hb = r.AllocateHistogram("h", cloneTags(c13TagSets[9]), tally.ValueBuckets{1}).ValueBucket(0, 1) // 8 tags + 2 bucket tags
 			}
 			closeSock := func() { _ = m3.VerifTransport(r).(*thriftudp.TUDPTransport).Conn().Close() }
 			if v.sockFault == "before" {
